@@ -136,6 +136,8 @@ class SimForkPool:
                 error = val
         self.sig = [self.n, chunksize, assign, order]
         sim.pool_sigs.append(self.sig)
+        self.last_order = order
+        self.last_results = results
         if error is not None:
             raise error
         return [x for chunk in results for x in chunk]
@@ -143,11 +145,40 @@ class SimForkPool:
     def imap(self, func, iterable, chunksize=1):
         return iter(self.map(func, iterable, chunksize))
 
-    imap_unordered = imap
+    def imap_unordered(self, func, iterable, chunksize=1):
+        """Results in the order in which the tasks COMPLETED, which under this scheduler is the order in which they
+        were released (one task runs at a time)."""
+        self.map(func, iterable, chunksize)
+        order = getattr(self, "last_order", [])
+        results = getattr(self, "last_results", [])
+        return iter([x for j in order for x in results[j]])
+
+    def starmap(self, func, iterable, chunksize=None):
+        return self.map(_Star(func), [tuple(a) for a in iterable], chunksize)
+
+    def apply(self, func, args=(), kwds=None):
+        return self.map(_Star(func, kwds or {}), [tuple(args)])[0]
+
+    def apply_async(self, func, args=(), kwds=None, callback=None, error_callback=None):
+        return self._later(_Async(lambda: self.apply(func, args, kwds), callback, error_callback))
+
+    def map_async(self, func, iterable, chunksize=None, callback=None, error_callback=None):
+        items = list(iterable)
+        return self._later(_Async(lambda: self.map(func, items, chunksize), callback, error_callback))
+
+    def starmap_async(self, func, iterable, chunksize=None, callback=None, error_callback=None):
+        items = [tuple(a) for a in iterable]
+        return self._later(_Async(lambda: self.starmap(func, items, chunksize), callback, error_callback))
+
+    def _later(self, res):
+        self.__dict__.setdefault("_pending", []).append(res)
+        return res
 
     def close(self):
         if self.closed:
             return
+        for res in self.__dict__.get("_pending", []):
+            res._run()  # work submitted asynchronously is done before the pool goes away
         self.closed = True
         for pid, conn in self.workers:
             try:
@@ -172,6 +203,54 @@ class SimForkPool:
 
     def __exit__(self, *a):
         self.terminate()
+
+
+class _Star:
+    """Picklable adapter: call func(*args, **kwds)."""
+
+    def __init__(self, func, kwds=None):
+        self.func, self.kwds = func, kwds or {}
+
+    def __call__(self, args):
+        return self.func(*args, **self.kwds)
+
+
+class _Async:
+    """AsyncResult stand-in: the work is done (under the simulated schedule) when the result is first asked for, or
+    at the latest when the pool is closed and joined - the caller cannot observe the difference."""
+
+    def __init__(self, thunk, callback, error_callback):
+        self._thunk, self._cb, self._ecb = thunk, callback, error_callback
+        self._done, self._val, self._exc = False, None, None
+
+    def _run(self):
+        if not self._done:
+            self._done = True
+            try:
+                self._val = self._thunk()
+                if self._cb:
+                    self._cb(self._val)
+            except BaseException as exc:  # noqa: BLE001
+                self._exc = exc
+                if self._ecb:
+                    self._ecb(exc)
+
+    def get(self, timeout=None):
+        self._run()
+        if self._exc is not None:
+            raise self._exc
+        return self._val
+
+    def wait(self, timeout=None):
+        self._run()
+
+    def ready(self):
+        self._run()
+        return True
+
+    def successful(self):
+        self._run()
+        return self._exc is None
 
 
 def _restart_probes():
